@@ -1607,7 +1607,7 @@ impl Relation {
             } else {
                 self.0.children_with_tokens().count()
             };
-            let new_root = SyntaxNode::new_root(self.0.green().splice_children(
+            let new_root = SyntaxNode::new_root_mut(self.0.green().splice_children(
                 idx..idx,
                 vec![
                     GreenToken::new(WHITESPACE.into(), " ").into(),
@@ -1615,10 +1615,11 @@ impl Relation {
                 ],
             ));
             if let Some(parent) = self.0.parent() {
-                parent.splice_children(self.0.index()..self.0.index() + 1, vec![new_root.into()]);
+                let index = self.0.index();
+                parent.splice_children(index..index + 1, vec![new_root.into()]);
                 self.0 = parent
                     .children_with_tokens()
-                    .nth(self.0.index())
+                    .nth(index)
                     .unwrap()
                     .clone()
                     .into_node()
@@ -1660,34 +1661,27 @@ impl Relation {
         builder.token(R_ANGLE.into(), ">");
         builder.finish_node();
 
-        let node_profiles = self.0.children().find(|n| n.kind() == PROFILES);
-        if let Some(node_profiles) = node_profiles {
-            let new_root = SyntaxNode::new_root_mut(builder.finish());
-            self.0.splice_children(
-                node_profiles.index()..node_profiles.index() + 1,
-                vec![new_root.into()],
-            );
+        // a relation may carry several restriction lists: add this one after the others
+        let idx = self.0.children_with_tokens().count();
+        let new_root = SyntaxNode::new_root_mut(self.0.green().splice_children(
+            idx..idx,
+            vec![
+                GreenToken::new(WHITESPACE.into(), " ").into(),
+                builder.finish().into(),
+            ],
+        ));
+        if let Some(parent) = self.0.parent() {
+            let index = self.0.index();
+            parent.splice_children(index..index + 1, vec![new_root.into()]);
+            self.0 = parent
+                .children_with_tokens()
+                .nth(index)
+                .unwrap()
+                .clone()
+                .into_node()
+                .unwrap();
         } else {
-            let idx = self.0.children_with_tokens().count();
-            let new_root = SyntaxNode::new_root(self.0.green().splice_children(
-                idx..idx,
-                vec![
-                    GreenToken::new(WHITESPACE.into(), " ").into(),
-                    builder.finish().into(),
-                ],
-            ));
-            if let Some(parent) = self.0.parent() {
-                parent.splice_children(self.0.index()..self.0.index() + 1, vec![new_root.into()]);
-                self.0 = parent
-                    .children_with_tokens()
-                    .nth(self.0.index())
-                    .unwrap()
-                    .clone()
-                    .into_node()
-                    .unwrap();
-            } else {
-                self.0 = new_root;
-            }
+            self.0 = new_root;
         }
     }
 
